@@ -17,6 +17,7 @@ CONSTANTS
   Reorder = TRUE
   RecvAnywhere = TRUE
   PropsOn <- P_C02
+  ExportAll = TRUE
   Export = TRUE
 INVARIANT NoFlag
 INVARIANT ExportInv
